@@ -2,6 +2,7 @@ import PqV.Lemmas.Dataset
 import PqV.Lemmas.Footer
 import PqV.Impl.Append
 import PqV.Gen.AppendIO
+import PqV.Lemmas.Rejected
 /-!
 # C18 — rejected operations raise and leave an existing dataset exactly as it was
 -/
@@ -62,5 +63,25 @@ theorem simple_fail_rollback (f partialBytes : List Nat) (h : footerLoc false f 
 /-- The code as it stands restores the saved footer in its exception handler and re-raises
     (regenerated from `write_simple.write_to_file`): the roll-back theorem applies to it. -/
 theorem rolls_back_now : PqV.Gen.AppendIO.rollsBack = true := by decide
+
+/-- **history level: failed appends are invisible to everything that follows.**  Take ANY sequence of attempted
+    multi-file appends, each planned (part numbers by `find_max_part`) from the `_metadata` it finds on disk, each either
+    completing or failing after any number `k` of its data-phase operations (a torn or complete part file left behind,
+    no summary written).  A fresh open at the end reads exactly what it reads after the sequence of the COMPLETED appends
+    alone: a failed attempt only creates or tears files whose part numbers no row group carries, and the next attempt,
+    planned from the unchanged `_metadata`, re-creates ('wb') every file it is going to reference.  By an invariant
+    (`Agree`: same `_metadata`, same content in every referenced file) carried through the induction over the
+    history; the operation lists are those of `Impl.Dataset.appendOps`, tied to the real `open_with` / `mkdirs` call
+    sequence by the C19 trace correspondence. -/
+theorem rejected_attempts_invisible (partitioned : Bool) (fs : FS) (as : List Attempt) :
+    readDS (as.foldl (attempt partitioned) fs) = readDS ((as.filter (·.fail.isNone)).foldl (attempt partitioned) fs) :=
+  readDS_agree _ _ (attempts_agree partitioned as fs fs (Agree.refl fs))
+
+/-- non-vacuity: a dataset of one row group; an append that dies after tearing `part.1`; then a completed append of other rows
+    (which re-creates `part.1`): the failed attempt's rows 7, 8 are nowhere, the dataset reads 1, 2, 3, 4 -/
+example :
+    let fs : FS := [(.pmeta, .refs [{ dir := "", id := 0, rows := [1, 2] }]), (.part "" 0, .data [1, 2])]
+    readDS ([{ nd := [[("", [7, 8])]], fail := some 1 }, { nd := [[("", [3, 4])]], fail := none }].foldl (attempt false) fs)
+      = some [1, 2, 3, 4] := by decide
 
 end PqV.Props.C18
